@@ -2,11 +2,61 @@
     the values given to the fresh gradient / value leaves are the real oracle's outputs at the value
     of the evaluated point, and later steps never change the value of an earlier leaf. *)
 From Coq Require Import List QArith Reals Qreals Lra Arith Bool Lia.
-From PV Require Import Base.IPS Model.Dict Model.Terms Model.Method Spec.Sem Spec.World.
+From PV Require Import Base.IPS Model.Dict Model.Terms Model.Method Spec.Sem Spec.World Proofs.DictLemmas Proofs.SemLemmas.
 Import ListNotations.
 Local Open Scope R_scope.
 
 Lemma Q2R_one : Q2R 1 = 1. Proof. unfold Q2R; cbn; lra. Qed.
+
+(** ** the checks of [op_wf] for a proximal step *)
+Lemma qpos_pos q : qpos q = true -> 0 < Q2R q.
+Proof.
+  unfold qpos. intros H. apply Z.ltb_lt in H.
+  assert (HQ : (0 < q)%Q) by (unfold Qlt; cbn; lia).
+  apply Qlt_Rlt in HQ. rewrite RMicromega.Q2R_0 in HQ. exact HQ.
+Qed.
+
+Lemma nodupb_NoDup l : nodupb l = true -> NoDup l.
+Proof.
+  induction l as [|k l IH]; cbn [nodupb]; intros H; [constructor|].
+  apply andb_prop in H as [H1 H2]. constructor; [|exact (IH H2)].
+  intros Hin. apply negb_true_iff in H1. assert (Hex : existsb (Nat.eqb k) l = true).
+  { apply existsb_exists. exists k. split; [exact Hin|apply Nat.eqb_refl]. }
+  congruence.
+Qed.
+
+Lemma keys_below_iff n (p : pdict) : keys_below n p = true <-> forall k, In k (keys p) -> (k < n)%nat.
+Proof.
+  unfold keys_below, keys. rewrite forallb_forall. split.
+  - intros H k Hk. apply in_map_iff in Hk as [[k' q] [<- Hin]]. specialize (H _ Hin). cbn in H.
+    apply Nat.ltb_lt. exact H.
+  - intros H [k q] Hin. apply Nat.ltb_lt. apply H. apply in_map_iff. exists (k, q). split; [reflexivity|exact Hin].
+Qed.
+
+Lemma keys_prune_incl (d : pdict) k : In k (keys (prune d)) -> In k (keys d).
+Proof.
+  unfold keys, prune. intros H. apply in_map_iff in H as [[k' q] [<- Hin]]. apply filter_In in Hin as [Hin _].
+  apply in_map_iff. exists (k', q). split; [reflexivity|exact Hin].
+Qed.
+
+Lemma keys_pmerge_incl (a b : pdict) k : In k (keys (pmerge a b)) -> In k (keys a) \/ In k (keys b).
+Proof.
+  unfold keys, pmerge, merge. rewrite map_app, in_app_iff. intros [H|H].
+  - left. rewrite map_map in H. apply in_map_iff in H as [[k' q] [<- Hin]].
+    apply in_map_iff. exists (k', q). split; [|exact Hin]. destruct (lookup Nat.eqb k' b); reflexivity.
+  - right. apply in_map_iff in H as [[k' q] [<- Hin]]. apply filter_In in Hin as [Hin _].
+    apply in_map_iff. exists (k', q). split; [reflexivity|exact Hin].
+Qed.
+
+(** the point recorded by a proximal step only mentions the leaves of p and the fresh subgradient leaf *)
+Lemma keys_below_prox n (p : pdict) gamma :
+  keys_below n p = true -> keys_below (S n) (prune (p_sub p (p_scal gamma [(n, 1%Q)]))) = true.
+Proof.
+  intros Hp. apply keys_below_iff. intros k Hk. apply keys_prune_incl in Hk. unfold p_sub, p_add in Hk.
+  apply keys_prune_incl in Hk. apply keys_pmerge_incl in Hk as [Hk|Hk].
+  - apply (proj1 (keys_below_iff n p) Hp) in Hk. lia.
+  - unfold p_neg, p_scal in Hk. rewrite !keys_scale in Hk. cbn in Hk. destruct Hk as [<-|[]]. lia.
+Qed.
 
 Section Method.
   Context {E : ips}.
@@ -88,7 +138,7 @@ Section Method.
     (forall i, (i < m_np s)%nat -> fst (wstep W vs s o) i = fst vs i) /\
     (forall i, (i < m_ne s)%nat -> snd (wstep W vs s o) i = snd vs i).
   Proof.
-    destruct o as [|f p|f]; cbn [wstep fst snd]; split; intros i Hi; try reflexivity;
+    destruct o as [|f p|f|f p gamma]; cbn [wstep fst snd]; split; intros i Hi; try reflexivity;
       apply upd_other; lia.
   Qed.
 
@@ -104,11 +154,30 @@ Section Method.
   Lemma mstep_counters s o : (m_np s <= m_np (mstep s o))%nat /\ (m_ne s <= m_ne (mstep s o))%nat.
   Proof. destruct o; cbn; lia. Qed.
 
+  (** the value of the point recorded by a proximal step is the proximal point *)
+  Lemma prox_point_value (rho : nat -> E) n (p : pdict) gamma (xr : E) :
+    keys_below n p = true -> NoDupKeys nat p -> 0 < Q2R gamma ->
+    let x0 := evalP rho p in
+    let rho' := upd rho n (vscal (1 / Q2R gamma) (vsub x0 xr)) in
+    veq xr (evalP rho' (prune (p_sub p (p_scal gamma [(n, 1%Q)])))).
+  Proof.
+    intros Hk Hnd Hg x0 rho' w.
+    assert (Hp : evalP rho' p = x0).
+    { apply (evalP_agree rho rho' n p Hk). intros i Hi. apply upd_other. lia. }
+    assert (Hpr : forall d : pdict, inner (evalP rho' (prune d)) w = inner (evalP rho' d) w).
+    { intros d. rewrite !inner_evalP, dsum_prune. reflexivity. }
+    rewrite Hpr.
+    rewrite (evalP_sub rho' p (p_scal gamma [(n, 1%Q)]) Hnd) by (apply pND_scal; unfold NoDupKeys, keys; cbn; repeat constructor; tauto).
+    rewrite inner_sub_l, Hp, (evalP_scal rho' gamma [(n, 1%Q)] w), inner_scal_l.
+    cbn [evalP]. unfold rho' at 1. rewrite upd_same, Q2R_one.
+    rewrite inner_add_l, !inner_scal_l, inner_zero_l, inner_sub_l. field. lra.
+  Qed.
+
   Lemma Inv_step s vs o :
-    Inv s vs -> (match o with MEval _ p => keys_below (m_np s) p | _ => true end) = true ->
+    Inv s vs -> op_wf s o = true -> (match o with MProx f _ _ => has_prox W f | _ => true end) = true ->
     Inv (mstep s o) (wstep W vs s o).
   Proof.
-    intros HI Hwf f t Hin.
+    intros HI Hwf Hpx f t Hin.
     destruct (wstep_agree vs s o) as [Hr Hp].
     destruct (mstep_counters s o) as [Hc1 Hc2].
     assert (Hold : forall f t, In (f, t) (m_samples s) ->
@@ -117,7 +186,7 @@ Section Method.
     { intros f0 t0 Hin0. destruct (HI f0 t0 Hin0) as [Hb Hg]. split.
       - exact (sample_below_mono _ _ _ _ t0 Hc1 Hc2 Hb).
       - rewrite (sample_at_agree (fst vs) _ (snd vs) _ _ _ t0 Hb Hr Hp). exact Hg. }
-    destruct o as [|g p|g]; cbn [mstep m_samples] in Hin.
+    destruct o as [|g p|g|g p gamma]; cbn [mstep m_samples op_wf] in Hin, Hwf.
     - apply Hold, Hin.
     - apply in_app_or in Hin as [Hin|[Heq|[]]]; [apply Hold, Hin|].
       injection Heq as <- <-. split.
@@ -145,21 +214,41 @@ Section Method.
         replace (1 * snd (stat W g) + 0) with (snd (stat W g)) by lra.
         apply (Gen_xveq W g (fst (stat W g))); [apply stat_genuine|].
         intros w. rewrite inner_add_l, inner_scal_l, inner_zero_l. lra.
+    - apply in_app_or in Hin as [Hin|[Heq|[]]]; [apply Hold, Hin|].
+      injection Heq as <- <-.
+      apply andb_prop in Hwf as [Hwf Hpos]. apply andb_prop in Hwf as [Hk Hndb].
+      pose proof (qpos_pos gamma Hpos) as Hg.
+      assert (Hnd : NoDupKeys nat p) by (apply nodupb_NoDup; exact Hndb).
+      split.
+      + assert (H1 : Nat.ltb (m_np s) (S (m_np s)) = true) by (apply Nat.ltb_lt; lia).
+        assert (H2 : Nat.ltb (m_ne s) (S (m_ne s)) = true) by (apply Nat.ltb_lt; lia).
+        unfold sample_below. cbn [mstep m_np m_ne].
+        change [(m_np s, (1 * gamma)%Q)] with (p_scal gamma [(m_np s, 1%Q)]). rewrite (keys_below_prox (m_np s) p gamma Hk).
+        unfold keys_below, ekeys_below. cbn [forallb ekey_below]. rewrite H1, H2. reflexivity.
+      + cbn [sample_at wstep fst snd].
+        set (x0 := evalP (fst vs) p). set (xr := prox W g (Q2R gamma) x0).
+        set (G := vscal (1 / Q2R gamma) (vsub x0 xr)).
+        cbn [evalP evalE evalK]. rewrite !upd_same, Q2R_one.
+        replace (1 * proxval W g (Q2R gamma) x0 + 0) with (proxval W g (Q2R gamma) x0) by lra.
+        apply (Gen_xveq W g xr); [|exact (prox_point_value (fst vs) (m_np s) p gamma xr Hk Hnd Hg)].
+        apply (Gen_veq W g xr G); [apply prox_genuine; assumption|].
+        intros w. rewrite inner_add_l, inner_scal_l, inner_zero_l. lra.
   Qed.
 
   (** Every recorded sample of a well-formed program is a genuine sample of its function in the
       world, at the values the real run gives to the leaves — for every program length. *)
   Theorem world_samples_genuine ops : forall s vs,
-    mwf ops s = true -> Inv s vs -> Inv (mrun ops s) (wrun W ops s vs).
+    mwf ops s = true -> prox_ok W ops = true -> Inv s vs -> Inv (mrun ops s) (wrun W ops s vs).
   Proof.
-    induction ops as [|o ops IH]; intros s vs Hwf HI; cbn [mrun fold_left wrun]; [exact HI|].
+    induction ops as [|o ops IH]; intros s vs Hwf Hpx HI; cbn [mrun fold_left wrun]; [exact HI|].
     cbn [mwf] in Hwf. apply andb_prop in Hwf as [Ho Hwf].
-    apply (IH (mstep s o) (wstep W vs s o) Hwf). apply Inv_step; assumption.
+    unfold prox_ok in Hpx. cbn [forallb] in Hpx. apply andb_prop in Hpx as [Hpo Hpx].
+    apply (IH (mstep s o) (wstep W vs s o) Hwf Hpx). apply Inv_step; assumption.
   Qed.
 
   Corollary world_samples_genuine_init ops vs :
-    mwf ops minit = true -> Inv (mrun ops minit) (wrun W ops minit vs).
-  Proof. intros Hwf. apply world_samples_genuine; [exact Hwf|]. intros f t []. Qed.
+    mwf ops minit = true -> prox_ok W ops = true -> Inv (mrun ops minit) (wrun W ops minit vs).
+  Proof. intros Hwf Hpx. apply world_samples_genuine; [exact Hwf|exact Hpx|]. intros f t []. Qed.
 
   (** Leaves that exist before the run (and free leaves in general) keep the value the initial
       valuation gives them: the starting point and the optimum are whatever the user's initial
